@@ -83,10 +83,17 @@ def main(argv=None):
         return 3
 
 
+_ACTIVE_KNOWN = []     # the open known findings that reproduce in this run (set by run())
+
+
 def _replay_any(rtc, case):
-    """case may be one case dict or a list of candidate cases: the first one that FAILS on the real code wins"""
+    """case may be one case dict or a list of candidate cases: the first one that FAILS on the real code wins. Candidates inside the
+    region of an open known finding are not replayed: their failure is already reported as KNOWN-FINDING and says nothing new"""
     if isinstance(case, dict):
         case = [case]
+    if _ACTIVE_KNOWN:
+        from rtc._common import region_matches
+        case = [c for c in case if not any(region_matches(kf.get("standin_region"), c) for kf in _ACTIVE_KNOWN)]
     last = (True, "no candidate case", None)
     for c in case:
         try:
@@ -155,6 +162,7 @@ def _run(prop, a, seed, t0):
             print(f"note: known finding {kf['id']} no longer reproduces; its region is NOT excluded in this run")
     if disabled:
         os.environ["VERIF_KF_DISABLE"] = ",".join(disabled)
+    _ACTIVE_KNOWN[:] = active
 
     # ---- 2. verification conditions ------------------------------------------------------------
     units = []
